@@ -29,11 +29,48 @@ func loopDesc(l *core.Loop) string {
 // classifyLoop returns a non-empty class when the loop is recognised as terminating
 // (or as an event loop, which is outside per-packet termination).
 func classifyLoop(p *core.Program, fn *ssa.Function, l *core.Loop) (class, why string) {
-	inLoop := func(v ssa.Value) bool {
-		if i, ok := v.(ssa.Instruction); ok {
-			return l.Blocks[i.Block()]
+	// the loop writes no memory: no store, map update, send, and no call other than to a few pure library functions
+	readOnly := true
+	for b := range l.Blocks {
+		for _, ins := range b.Instrs {
+			switch t := ins.(type) {
+			case *ssa.Store, *ssa.MapUpdate, *ssa.Send, *ssa.Go, *ssa.Defer:
+				readOnly = false
+			case *ssa.Call:
+				if _, isB := t.Call.Value.(*ssa.Builtin); isB {
+					continue
+				}
+				switch core.CalleeName(t) {
+				case "bytes.Equal", "bytes.Compare", "bytes.HasPrefix", "bytes.HasSuffix", "strings.HasPrefix", "strings.HasSuffix":
+				default:
+					readOnly = false
+				}
+			}
 		}
-		return false
+	}
+	var inLoop func(v ssa.Value) bool
+	inLoop = func(v ssa.Value) bool {
+		i, ok := v.(ssa.Instruction)
+		if !ok || !l.Blocks[i.Block()] {
+			return false
+		}
+		// a value recomputed on every iteration from memory the loop never writes is as good as one computed before it:
+		// len(x.f) / cap(x.f) / x.f with x defined outside the loop
+		if readOnly {
+			switch t := v.(type) {
+			case *ssa.Call:
+				if bi, isB := t.Call.Value.(*ssa.Builtin); isB && (bi.Name() == "len" || bi.Name() == "cap") && len(t.Call.Args) == 1 {
+					return inLoop(t.Call.Args[0])
+				}
+			case *ssa.UnOp:
+				if t.Op == token.MUL {
+					return inLoop(t.X)
+				}
+			case *ssa.FieldAddr:
+				return inLoop(t.X)
+			}
+		}
+		return true
 	}
 	// (vi) event loops: blocking select / channel receive / ticker wait inside the loop
 	for b := range l.Blocks {
